@@ -23,7 +23,8 @@ CONSTANTS Dev, MaxFaults, GenHist   \* GenHist: keep the history variable (vecto
 VARIABLES pc, target, temp, eval, exit, alive, faults, hist
 vars == <<pc, target, temp, eval, exit, alive, faults, hist>>
 
-EvalKinds == {"ok", "parsefail", "decodefail", "evalfail", "encodefail", "nomatch"}
+EvalKinds == {"ok", "okempty", "parsefail", "decodefail", "evalfail", "encodefail", "nomatch"}
+\* okempty: the evaluation succeeds and has no result - nothing is written, the (empty) temporary file IS the complete new content
 
 Init == /\ pc = "CreateTemp" /\ target = [content |-> "Old", mode |-> "orig"]
         /\ temp = [exists |-> FALSE, full |-> FALSE, mode |-> "0600"]
@@ -54,10 +55,11 @@ ChownTemp  == /\ alive /\ pc = "ChownTemp" /\ Stay /\ pc' = "Evaluate" /\ UNCHAN
 \* decode -> evaluate -> print per document, so a decode/evaluation/encode failure on a LATER document happens after
 \* the results of the earlier documents were written to the temporary file (LateFailures); a parse failure never does.
 LateFailures == {"decodefail", "evalfail", "encodefail"}
-Evaluate   == /\ alive /\ pc = "Evaluate" /\ Stay /\ UNCHANGED <<target, temp, faults>>
-              /\ \/ (eval \in {"ok", "nomatch"} /\ pc' = "Write" /\ UNCHANGED exit /\ Log("Evaluate", "ok"))
-                 \/ (eval \notin {"ok", "nomatch"} /\ pc' = "Done" /\ exit' = 1 /\ Log("Evaluate", eval))
-                 \/ (eval \in LateFailures /\ pc' = "Write" /\ UNCHANGED exit /\ Log("Evaluate", "ok"))
+Evaluate   == /\ alive /\ pc = "Evaluate" /\ Stay /\ UNCHANGED <<target, faults>>
+              /\ \/ (eval \in {"ok", "nomatch"} /\ pc' = "Write" /\ UNCHANGED <<exit, temp>> /\ Log("Evaluate", "ok"))
+                 \/ (eval = "okempty" /\ temp' = [temp EXCEPT !.full = TRUE] /\ pc' = "ExitCheck" /\ UNCHANGED exit /\ Log("Evaluate", "ok"))
+                 \/ (eval \notin {"ok", "okempty", "nomatch"} /\ pc' = "Done" /\ exit' = 1 /\ UNCHANGED temp /\ Log("Evaluate", eval))
+                 \/ (eval \in LateFailures /\ pc' = "Write" /\ UNCHANGED <<exit, temp>> /\ Log("Evaluate", "ok"))
 \* the encoded results are written (and flushed) to the temporary file
 Write      == /\ alive /\ pc = "Write" /\ Stay /\ UNCHANGED target
               /\ \/ (temp' = [temp EXCEPT !.full = TRUE] /\ pc' = "ExitCheck" /\ Log("Write", "ok") /\ UNCHANGED <<exit, faults>>)
@@ -83,7 +85,8 @@ OpenSrc    == /\ alive /\ pc = "OpenSrc" /\ Stay
               /\ \/ (pc' = "CreateDstTruncate" /\ Log("OpenSrc", "ok") /\ UNCHANGED <<target, temp, exit, faults>>) \/ CopyFail("OpenSrc")
 CreateDstTruncate ==
               /\ alive /\ pc = "CreateDstTruncate" /\ Stay
-              /\ \/ (target' = [target EXCEPT !.content = "Trunc"] /\ pc' = "Copy" /\ Log("CreateDstTruncate", "ok") /\ UNCHANGED <<temp, exit, faults>>)
+              /\ \/ (target' = [target EXCEPT !.content = IF eval = "okempty" THEN "New" ELSE "Trunc"] /\ pc' = "Copy"      \* (an empty file is the complete new content when nothing was printed)
+                     /\ Log("CreateDstTruncate", "ok") /\ UNCHANGED <<temp, exit, faults>>)
                  \/ CopyFail("CreateDstTruncate")
 Copy       == /\ alive /\ pc = "Copy" /\ Stay
               /\ \/ (target' = [target EXCEPT !.content = "New"] /\ pc' = "Sync" /\ Log("Copy", "ok") /\ UNCHANGED <<temp, exit, faults>>) \/ CopyFail("Copy")
